@@ -39,6 +39,8 @@ enum Kind {
     PipeRead,
     Accept,
     Multi,
+    /// a readiness wait (`PollFd::read_ready`): completes when the peer has written, consumes nothing
+    Poll,
 }
 
 #[derive(Clone, Copy, Debug, PartialEq)]
@@ -69,11 +71,12 @@ fn gen_prog() -> Vec<Victim> {
     let n = 1 + sim::range("victims", 0, 4) as usize;
     let mut v: Vec<Victim> = Vec::new();
     for i in 0..n {
-        let kind = match sim::choose("victim.kind", 4) {
+        let kind = match sim::choose("victim.kind", 5) {
             0 => Kind::UnixRecv,
             1 => Kind::PipeRead,
             2 => Kind::Accept,
-            _ => Kind::Multi,
+            3 => Kind::Multi,
+            _ => Kind::Poll,
         };
         // (a victim with warm-up bytes may leave some of them in its socket: nobody shares that one)
         let share_prev = kind == Kind::UnixRecv && i > 0 && v[i - 1].kind == Kind::UnixRecv && v[i - 1].warmups == 0 && sim::flip("victim.share", 1, 2);
@@ -123,6 +126,8 @@ fn gen_prog() -> Vec<Victim> {
 enum Outcome {
     Data(Vec<u8>),
     Accepted,
+    /// the readiness wait reported readiness
+    Ready,
     Cancelled,
     Elapsed,
     Other(String),
@@ -175,6 +180,7 @@ fn cancel() -> RunResult {
                         Unix(Rc<compio_net::UnixStream>),
                         Pipe(compio_fs::pipe::Receiver),
                         Listener(compio_net::UnixListener),
+                        Poll(compio_runtime::fd::PollFd<std::os::unix::net::UnixStream>),
                     }
                     let res = match v.kind {
                         Kind::UnixRecv | Kind::Multi => {
@@ -201,6 +207,19 @@ fn cancel() -> RunResult {
                                 keep.borrow_mut().push(Box::new(peer));
                             }
                             Res::Unix(sock)
+                        }
+                        Kind::Poll => {
+                            let (a, b) = std::os::unix::net::UnixStream::pair().expect("socketpair");
+                            let b = Rc::new(RefCell::new(b));
+                            if let Some((at, _)) = v.data {
+                                let (d, peer) = (data.clone(), b.clone());
+                                simkernel::at(Duration::from_micros(at), format!("peer of victim {i} writes {} bytes", d.len()), move || {
+                                    let _ = peer.borrow_mut().write_all(&d);
+                                });
+                            }
+                            // (the peer stays open until the run is over: silence, not end of stream)
+                            keep.borrow_mut().push(Box::new(b));
+                            Res::Poll(compio_runtime::fd::PollFd::new(a).expect("PollFd"))
                         }
                         Kind::PipeRead => {
                             let (rx, tx) = compio_fs::pipe::anonymous().await.expect("pipe");
@@ -259,7 +278,7 @@ fn cancel() -> RunResult {
                                     let mut r = p;
                                     r.read(Vec::with_capacity(1)).with_cancel(tok.clone()).await
                                 }
-                                Res::Listener(_) => unreachable!(),
+                                Res::Listener(_) | Res::Poll(_) => unreachable!(),
                             };
                             if matches!(&r, Err(e) if e.is_cancelled()) && tok.is_cancelled() {
                                 // the token fired during the warm-ups already
@@ -303,6 +322,11 @@ fn cancel() -> RunResult {
                                         Err(e) => Outcome::Other(format!("{e}")),
                                     }
                                 }
+                                Res::Poll(p) => match p.read_ready().await {
+                                    Ok(()) => Outcome::Ready,
+                                    Err(e) if e.is_cancelled() => Outcome::Cancelled,
+                                    Err(e) => Outcome::Other(format!("{e}")),
+                                },
                                 Res::Listener(l) => match l.accept().await {
                                     Ok(_) => Outcome::Accepted,
                                     Err(e) if e.is_cancelled() => Outcome::Cancelled,
@@ -378,6 +402,9 @@ fn cancel() -> RunResult {
                 if matches!(rep.outcome, Outcome::Accepted) {
                     check!(v.data.is_some(), "fabricated-success", "victim {i}: accept succeeded although nobody connected");
                 }
+                if matches!(rep.outcome, Outcome::Ready) {
+                    check!(data_at.map(|t| rep.finished_at >= t).unwrap_or(false), "fabricated-success", "victim {i}: the descriptor was reported readable before its peer wrote anything (or although it never did)");
+                }
                 // prompt
                 let cancel_at = match *route {
                     Route::Token { at, late } => Some(when(if late { at + 5 } else { at })),
@@ -386,7 +413,7 @@ fn cancel() -> RunResult {
                 };
                 match cancel_at {
                     Some(c) => {
-                        let genuine = matches!(rep.outcome, Outcome::Data(_) | Outcome::Accepted);
+                        let genuine = matches!(rep.outcome, Outcome::Data(_) | Outcome::Accepted | Outcome::Ready);
                         let deadline = if genuine { c.max(data_at.unwrap_or(c)) } else { c };
                         check!(rep.finished_at <= deadline + SLACK, "not-prompt", "victim {i} ({:?}, {route:?}) finished {:?} after it was cancelled ({:?})", v.kind, rep.finished_at.duration_since(deadline), rep.outcome);
                         if !genuine {
@@ -398,6 +425,7 @@ fn cancel() -> RunResult {
                         match (&rep.outcome, v.kind) {
                             (Outcome::Data(b), _) => check!(*b == payloads[i][..b.len()], "neighbour-disturbed", "neighbour {i} got wrong bytes"),
                             (Outcome::Accepted, Kind::Accept) => {}
+                            (Outcome::Ready, Kind::Poll) => {}
                             (o, _) => simcore::violation!("neighbour-disturbed", "victim {i} ({:?}) was never cancelled but finished with {o:?}", v.kind),
                         }
                         let t = data_at.unwrap();
